@@ -407,8 +407,8 @@ func (s *bgcSim) bgcEnv() {
 func (s *bgcSim) bgcRelease(rev string) {
 	ctx := context.TODO()
 	cs := &kruisev1alpha1.CloneSet{}
-	if err := s.cli.Client.Get(ctx, clWlKey, cs); err != nil {
-		return
+	if err := s.cli.Client.Get(ctx, clWlKey, cs); err != nil || rev == cs.Status.UpdateRevision {
+		return // an unchanged template is not a release: the webhook does not act
 	}
 	cs.Generation++
 	cs.Annotations[util.InRolloutProgressingAnnotation] = `{"rolloutName":"r"}`
